@@ -81,20 +81,22 @@ Fixpoint get_path (t : ptd) (path : list string) : option pent :=
   end.
 
 Inductive pop :=
-  | OSet (path : list string) (o : obj) (isfloat : bool)     (* tdparams[path] = tensor / .set(path, tensor) *)
+  | OSet (path : list string) (o : obj) (isfloat conv : bool) (* tdparams[path] = tensor / .set(path, tensor) / .update;
+                                                                  conv = false: update({k: {...}}) into an existing
+                                                                  sub-tensordict stores the tensor unconverted *)
   | ODel (path : list string)                                (* del tdparams[path] *)
   | ORename (k k' : string)                                  (* tdparams.rename_key_(k, k') at the root *)
   | ONestedSet (path : list string) (k : string) (o : obj)   (* tdparams[path][k] = tensor   (path non-empty) *)
   | ONestedDel (path : list string) (k : string).            (* del tdparams[path][k] *)
 
 Definition top_level (o : pop) : bool :=
-  match o with OSet _ _ _ | ODel _ | ORename _ _ => true | ONestedSet _ _ _ | ONestedDel _ _ => false end.
+  match o with OSet _ _ _ _ | ODel _ | ORename _ _ => true | ONestedSet _ _ _ | ONestedDel _ _ => false end.
 
 (* result: new state, raised? (a raising op leaves the state as the code leaves it: unchanged here) *)
 Definition step (s : tdparams) (o : pop) : tdparams * bool :=
   match o with
-  | OSet path x isfloat =>
-      let '(x', nxt) := convert s x isfloat in
+  | OSet path x isfloat conv =>
+      let '(x', nxt) := if conv then convert s x isfloat else (x, tp_next s) in
       match set_path (tp_td s) path (PLeaf (Some x')) with
       | Some t' => (reset_params (mkTdp t' (tp_params s) (tp_bufs s) (tp_noconv s) nxt), false)
       | None => (mkTdp (tp_td s) (tp_params s) (tp_bufs s) (tp_noconv s) nxt, true)
